@@ -196,6 +196,8 @@ mod intpack;
 mod nfa_builder;
 mod serializer;
 mod utils;
+#[cfg(feature = "daachorse_verif")]
+pub mod verif;
 
 use core::num::NonZeroU32;
 
